@@ -5,9 +5,13 @@ case  = [script, calls]
   message = [[] | [type], [[key, value], ...]]      keys sorted, unique, never "type"
   call    = ["accept", sub] | ["receive"] | ["receive_text"] | ["receive_bytes"] | ["iter_text", n] | ["iter_bytes", n]
           | ["send_text", v] | ["send_bytes", v] | ["close", code, reason] | ["send", message]
+          | ["iter_open", "t"|"b"]   g = ws.iter_text() / ws.iter_bytes(); the case's generators are numbered 0, 1, ... in order of creation
+          | ["iter_step", i]         await g_i.__anext__()      (any other call may come between two steps)
+          | ["iter_close", i]        await g_i.aclose()
 observation = [[cs, aps]] + per call [outcome, [event, ...], cs, aps]
   event   = ["r"] (server receive() called, script exhausted) | ["r", message] | ["f", message, aps at that moment]
   outcome = ["ok"] | ["msg", message] | ["val", value] | ["exc", name, ...] | ["iter", [value...], ["limit"]|["done"]|["exc", ...]]
+          | ["stop"] (StopAsyncIteration) | ["noiter"] (the case names a generator it never created)
 """
 import itertools
 import re
@@ -17,12 +21,17 @@ from . import core
 PID = "C11"
 MANIFEST = dict(
     text="Theorems forwarded_legal / application_state_is_phase / transition_before_forward / illegal_raises_nothing_forwarded / "
-         "sends_forward_or_raise / accept_consumes_connect / no_receive_after_disconnect / script_delivered_in_order / frames_in_order_once / close_closes / "
-         "close_idempotent / states_monotone about the Gallina model of "
-         "baize.asgi.websocket.WebSocket (two three-valued states, receive/send/accept/close/receive_*/iter_*/send_* as "
-         "state-exception-trace functions) hold for every call sequence and every server script; the model is compared with the "
-         "live class (driven through websocket_session with a scripted receive/send pair) on every call sequence up to length 4 "
+         "sends_forward_or_raise / accept_consumes_connect / no_receive_after_disconnect / typed_receive_needs_connected_application / "
+         "script_delivered_in_order / frames_in_order_once / close_closes / close_idempotent / states_monotone / "
+         "iter_step_is_typed_receive / finished_iterator_inert / iterator_finishes / iter_steps_equal_atomic_iter about the Gallina model of "
+         "baize.asgi.websocket.WebSocket (two three-valued states and the async generators of iter_text/iter_bytes created so far; "
+         "receive/send/accept/close/receive_*/iter_*/send_* and the single steps (__anext__) and aclose of an open generator as "
+         "state-exception-trace functions) hold for every call sequence - any call may come between two steps of a running "
+         "iteration - and every server script; the model is compared with the "
+         "live class (driven through websocket_session with a scripted receive/send pair; real async-generator objects are kept "
+         "across the calls of a case) on every call sequence up to length 4 "
          "(thorough 6) over the public operations x every script connect, <=3 text/binary frames, disconnect in every position, "
+         "every interleaving up to length 4 (thorough 5) of open/step/close of two generators with accept/receive/send/close, "
          "plus malformed scripts and random long runs; the property itself is evaluated on the live observations.",
     note="Modelled, not verified: a server whose receive() never blocks mid-call (an exhausted script raises a marker exception "
          "instead of blocking), whose send() does not raise, messages as dicts of None/str/bytes/int values. The asserts are the "
@@ -36,13 +45,19 @@ RULE = ("cases: (a) every call sequence up to length 2 (thorough 3) over the 16-
         "connect + <=3 text/binary frames + a disconnect in every position or none, (b) every call sequence up to length 4 "
         "(thorough 6) over an 8-operation core alphabet x a spread of those scripts (10; thorough 6, 3 at length 6), (c) malformed scripts (no connect, double "
         "connect, unknown/missing type, disconnect without code, frames with None/absent/both payload keys) x sequences up to "
-        "length 2 (thorough 3), (d) random runs of 5..14 calls with random arguments over random scripts; "
+        "length 2 (thorough 3), (d) random runs of 5..14 calls with random arguments over random scripts, "
+        "(e) generators kept open across calls: every call sequence up to length 4 (thorough 5) over the 9-operation alphabet "
+        "accept / receive / send_text / close / iter_open text / iter_open bytes / iter_step 0 / iter_step 1 / iter_close 0 x 3 scripts, "
+        "and accept, iter_open text followed by every sequence up to length 3 (thorough 4) over it x 6 (thorough 4) scripts, "
+        "(f) random application loops (accept, open, then steps of the generators interleaved with other calls) of 6..30 calls; "
         "non-trivial = some call raises, or a disconnect is delivered, or at least two events are forwarded")
 TRUSTED = ["scripted ASGI server of the harness: receive() hands out the script in order and raises a marker exception when it "
            "is exhausted; send() records the message and application_state at that moment"]
 ASSUMPTIONS = ["assert statements are executed (no python -O)",
                "the server's send() does not raise and receive() does not block in the middle of a call",
-               "no_receive_after_disconnect / frames_in_order_once: the first server event is websocket.connect"]
+               "no_receive_after_disconnect / frames_in_order_once: the first server event is websocket.connect",
+               "the calls of a case are made one after the other (one task): a generator of iter_text()/iter_bytes() is "
+               "stepped again, and any other call is made, only after the previous call returned"]
 EXHAUSTIVE = {"quick": True, "thorough": True}
 
 N_ = ["n"]
@@ -93,6 +108,10 @@ FULL = [["accept", N_], ["receive"], ["receive_text"], ["receive_bytes"], ["iter
         RAW_ACCEPT, RAW_SEND, RAW_CLOSE, RAW_OTHER, RAW_NOTYPE, RAW_CONNECT]
 CORE = [["accept", N_], ["receive"], ["receive_text"], ["iter_bytes", 9], ["send_text", S("x")], ["close", I(1000), N_],
         RAW_ACCEPT, RAW_OTHER]
+# generators kept open across calls, interleaved with the calls that change a state
+EXT = [["accept", N_], ["receive"], ["send_text", S("x")], ["close", I(1000), N_], ["iter_open", "t"], ["iter_open", "b"],
+       ["iter_step", 0], ["iter_step", 1], ["iter_close", 0]]
+LOOP_PREFIX = [["accept", N_], ["iter_open", "t"]]
 
 
 def wellformed_scripts(maxframes=3):
@@ -111,6 +130,12 @@ def core_scripts(tier):
     if tier == "quick":
         out += [[CONNECT, a, b, c], [CONNECT, a, a, disconnect(1001, S("bye"))], [], [CONNECT, b]]
     return out
+
+
+def ext_scripts():
+    a, b, c = frame("t", "a"), frame("b", "b"), frame("t", "c")
+    return [[CONNECT, a, b, disconnect(), c], [CONNECT, a, disconnect(1001, S("bye")), c], [CONNECT, a, c, b],
+            [CONNECT, a, c, c, disconnect()], [CONNECT, disconnect(), a], [CONNECT, frame("t", "a", 1), b]]
 
 
 def malformed_scripts():
@@ -170,6 +195,46 @@ def rand_msg(rng, types):
 APP_TYPES = ["websocket.accept", "websocket.send", "websocket.close", "websocket.send", "websocket.close",
              "websocket.receive", "websocket.http.response.body", "", None]
 SRV_TYPES = ["websocket.receive"] * 6 + ["websocket.disconnect", "websocket.connect", "websocket.close", None]
+
+
+def rand_iter_call(rng, ng):
+    """an operation on one of the ng generators created so far (sometimes on one that does not exist)"""
+    r = rng.random()
+    if ng == 0 or r < 0.15:
+        return ["iter_open", rng.choice("tb")]
+    i = rng.randrange(ng) if rng.random() < 0.95 else ng
+    return ["iter_step", i] if r < 0.9 else ["iter_close", i]
+
+
+def rand_calls(rng, n):
+    out, ng = [], 0
+    for _ in range(n):
+        c = rand_iter_call(rng, ng) if rng.random() < 0.3 else rand_call(rng)
+        if c[0] == "iter_open":
+            ng += 1
+        out.append(c)
+    return out
+
+
+def rand_loop(rng):
+    """the shape of an application: accept, start iterating, do other things between the steps"""
+    out = [["accept", rng.choice([N_, S("chat")])]] if rng.random() < 0.9 else []
+    out.append(["iter_open", rng.choice("ttb")])
+    ng = 1
+    for _ in range(rng.randrange(2, 12)):
+        out.append(["iter_step", rng.randrange(ng)])
+        r = rng.random()
+        if r < 0.35:
+            out.append(rng.choice([["send_text", S("echo")], ["send_bytes", B("e")], ["receive"], ["receive_text"],
+                                   ["close", I(1000), N_], RAW_CLOSE, RAW_SEND, ["iter_text", 1], ["accept", N_]]))
+        elif r < 0.5:
+            c = rand_iter_call(rng, ng)
+            if c[0] == "iter_open":
+                ng += 1
+            out.append(c)
+        elif r < 0.6:
+            out.append(rand_call(rng))
+    return [list(c) for c in out]
 
 
 def rand_call(rng):
@@ -234,7 +299,17 @@ def cases(tier, rng):
         for sc in mal:
             yield "malformed-script", [sc, calls]
     for _ in range(6000 if quick else 60000):
-        yield "random", [rand_script(rng), [rand_call(rng) for _ in range(rng.randrange(5, 15))]]
+        yield "random", [rand_script(rng), rand_calls(rng, rng.randrange(5, 15))]
+    es = ext_scripts()
+    for calls in seqs(EXT, 4 if quick else 5):
+        for sc in es[:3]:
+            yield "exhaustive-generators", [sc, calls]
+    for calls in seqs(EXT, 3 if quick else 4):
+        if calls:
+            for sc in (es if quick else es[:4]):
+                yield "exhaustive-generators", [sc, [list(c) for c in LOOP_PREFIX] + calls]
+    for _ in range(3000 if quick else 30000):
+        yield "random-loop", [rand_script(rng), rand_loop(rng)]
 
 
 def search_cases(tier, rng, mism):
@@ -330,8 +405,24 @@ def impl(case):
             return ["exc", "KeyError", e.args[0] if e.args and isinstance(e.args[0], str) else repr(e.args)]
         return ["exc", type(e).__name__]
 
+    gens = []      # the async generators of this case, kept across its calls
+
     async def one(ws, c):
         name = c[0]
+        if name == "iter_open":
+            gens.append(ws.iter_text() if c[1] == "t" else ws.iter_bytes())
+            return ["ok"]
+        if name in ("iter_step", "iter_close"):
+            if not 0 <= c[1] < len(gens):
+                return ["noiter"]
+            if name == "iter_close":
+                r = await gens[c[1]].aclose()
+                return ["ok"] if r is None else ["?", repr(r)[:60]]
+            try:
+                v = await gens[c[1]].__anext__()
+            except StopAsyncIteration:
+                return ["stop"]
+            return ["val", c_value(v)]
         if name == "accept":
             await ws.accept(py_value(c[1]))
             return ["ok"]
@@ -378,6 +469,11 @@ def impl(case):
             except Exception as e:
                 o = c_exc(e)
             out.append([o, list(log), st.get(ws.client_state, -1), st.get(ws.application_state, -1)])
+        for g in gens:
+            try:
+                await g.aclose()
+            except Exception:
+                pass
 
     scope = {"type": "websocket", "path": "/", "headers": [], "query_string": b"", "subprotocols": []}
     drive(websocket_session(view)(scope, receive, send))
@@ -439,9 +535,38 @@ def oracle(case, obs):
     delivered = 0          # script messages handed over so far
     disc_seen = False      # a disconnect was handed over
     closed_by_close = False
+    gens = []              # the generators created so far: [payload key, finished]
     for idx, (c, rec) in enumerate(zip(calls, obs[1:])):
         o, log, cs2, aps2 = rec
         where = "call %d %r (states before %d/%d)" % (idx, c, cs, aps)
+        # which payload a typed receive hands out (None: not a typed receive); a step of a generator that is
+        # still running is a typed receive, creating / closing a generator and stepping a finished one do nothing
+        n = c[0]
+        key = None
+        if n in ("receive_text", "iter_text"):
+            key = "text"
+        elif n in ("receive_bytes", "iter_bytes"):
+            key = "bytes"
+        elif n in ("iter_open", "iter_step", "iter_close"):
+            g = None
+            if n == "iter_open":
+                gens.append(["text" if c[1] == "t" else "bytes", False])
+                want_o = ["ok"]
+            elif not 0 <= c[1] < len(gens):
+                want_o = ["noiter"]
+            else:
+                g = gens[c[1]]
+                want_o = ["ok"] if n == "iter_close" else ["stop"]
+            if n == "iter_step" and g is not None and not g[1]:
+                key = g[0]
+                if o[0] != "val":
+                    g[1] = True          # ended, or raised: the generator is finished
+            else:
+                if o != want_o or log or (cs2, aps2) != (cs, aps):
+                    return ("generator-bookkeeping-acted", "%s gave %r, did %r, states %d/%d -> %d/%d; expected %r and "
+                            "nothing else" % (where, o, log, cs, aps, cs2, aps2, want_o))
+                if n == "iter_close" and g is not None:
+                    g[1] = True
         # states only move forward
         if not (cs <= cs2 <= 2 and aps <= aps2 <= 2):
             return ("state-moved-backwards", "%s: states went from %d/%d to %d/%d" % (where, cs, aps, cs2, aps2))
@@ -491,6 +616,19 @@ def oracle(case, obs):
                             "forwarding websocket.accept" % (where, log))
             if o != ["ok"] and not raised(o):
                 return ("send-odd-outcome", "%s gave %r" % (where, o))
+        # payloads are read between accept and close only: a typed receive (a step of a running iteration
+        # included) made while the application is not CONNECTED raises without asking the server
+        if key is not None and aps != 1:
+            if rc or (cs2, aps2) != (cs, aps):
+                return ("typed-receive-not-connected", "%s: a typed receive with application_state %d asked the server: %r, "
+                        "states -> %d/%d" % (where, aps, rc, cs2, aps2))
+            if not (raised(o) or (o[0] == "iter" and c[1] == 0)):
+                return ("typed-receive-not-connected", "%s: a typed receive with application_state %d gave %r instead of "
+                        "raising" % (where, aps, o))
+        # after the application closed only receive() (and accept(), waiting for the connect event) may ask the server
+        if aps == 2 and n not in ("receive", "accept") and (log or cs2 != cs):
+            return ("server-touched-after-close", "%s: the application had closed, yet the call did %r, client_state -> %d"
+                    % (where, log, cs2))
         # receive discipline
         for e in rc:
             if wf and disc_seen:
@@ -508,13 +646,11 @@ def oracle(case, obs):
         # frames are returned in order, exactly once
         if wf:
             frames_in = [e[1] for e in rc if len(e) == 2 and mtype(e[1]) == "websocket.receive"]
-            n = c[0]
             if n == "receive":
                 got = [o[1]] if o[0] == "msg" and mtype(o[1]) == "websocket.receive" else []
                 if got != frames_in:
                     return ("frame-lost-or-duplicated", "%s consumed frames %r but returned %r" % (where, frames_in, o))
-            elif n in ("receive_text", "receive_bytes", "iter_text", "iter_bytes"):
-                key = "text" if n.endswith("text") else "bytes"
+            elif key is not None:
                 want, missing = [], False
                 for f in frames_in:
                     if missing:
